@@ -114,4 +114,42 @@ theorem mem_take_compl {nr : List Nat} {p : Nat → Bool} {g : Nat} :
     rw [hp] at hp'
     cases hp'
 
+theorem take_zipIdx_filterMap (p : Nat → Bool) (l pre : List Nat) :
+    take (pre ++ l) ((l.zipIdx pre.length).filterMap fun (g, i) => if p g then some i else none)
+      = l.filter p := by
+  induction l generalizing pre with
+  | nil => simp [take]
+  | cons g l ih =>
+    have h := ih (pre ++ [g])
+    simp only [List.append_assoc, List.singleton_append, List.length_append, List.length_cons,
+      List.length_nil, Nat.zero_add] at h
+    rw [List.zipIdx_cons, List.filterMap_cons, List.filter_cons]
+    by_cases hp : p g = true
+    · simp only [hp, if_true]
+      unfold take at h ⊢
+      rw [List.filterMap_cons]
+      have : (pre ++ g :: l)[pre.length]? = some g := by simp
+      rw [this, h]
+    · simp only [hp]
+      exact h
+
+theorem take_relWhere_eq_filter (nr : List Nat) (p : Nat → Bool) :
+    take nr (relWhere nr p) = nr.filter p := by
+  have := take_zipIdx_filterMap p nr []
+  simpa [relWhere] using this
+
+theorem insertSorted_perm (a : Nat) (l : List Nat) : (insertSorted a l).Perm (a :: l) := by
+  induction l with
+  | nil => simp [insertSorted]
+  | cons b r ih =>
+    unfold insertSorted
+    split
+    · exact List.Perm.refl _
+    · exact (List.Perm.cons b ih).trans (List.Perm.swap a b r)
+
+theorem sortNat_perm (l : List Nat) : (sortNat l).Perm l := by
+  induction l with
+  | nil => exact List.Perm.refl _
+  | cons a r ih => exact (insertSorted_perm a (sortNat r)).trans (List.Perm.cons a ih)
+
 end PyYetiVerif.SuPartition
